@@ -49,12 +49,15 @@ THEOREMS = [
     "Opacus.C02.ghost_loss_broadcast_counterexample",
     "Opacus.C02.sensitivity_without_independence_counterexample",
     "Opacus.Clip.clipAndAccumulateExec_store",
+    # the tie to the source: Generated/ClipFactor.lean is re-translated from the five clip-factor sites on every run
+    "Opacus.C02.generated_clip_factor_eq_model",
 ]
 RULE = (
     "clip case = (optimizer kind, P tensors with shapes, C or per-tensor C_k, list of physical batches of synthetic per-sample gradients) from VERIF_SEED; "
     "non-trivial iff ≥2 samples, ≥2 tensors, at least one sample clipped (factor<1) and one not; distinct by (kind, shapes, batch sizes, C)"
 )
 TRUSTED = [
+    "the translator vharness/props/c02_trans.py (Python `ast` -> real arithmetic for the elementwise clip-factor expression `(C / (n + 1e-6)).clamp(max=1.0)` at its five sites, and the literal order of every .norm(p, …) call next to it; subset in its docstring, anything else is reported as a broken tie) is trusted to render those expressions faithfully; how the norms are assembled (reshape / stack / which tensors) and how the factor is applied (einsum) are tied by the behavioural correspondence only",
     "autograd linearity: the second backward of Σ_i coef_i·ℓ_i yields Σ_i coef_i·∇ℓ_i (ghost path contract)",
 ]
 PARTIAL = [
@@ -611,7 +614,14 @@ def bn_accepted(spec=None):
         return False
 
 
+def regenerate(ctx):
+    from .. import regen
+    from . import c02_trans as T
+    regen.regenerate(ctx, T, "Opacus.Generated.ClipFactor", "clip-factor sites (optimizers/*.py, grad_sample_module_fast_gradient_clipping.py)")
+
+
 def run(ctx):
+    regenerate(ctx)
     torch.set_num_threads(2)
     with rig.default_dtype(torch.float64):
         bv, val = detect_bias_variant()
